@@ -75,6 +75,7 @@ def reader_schema(pkg, ty, mem, fields):
         d = default_of(ity, dflt)
         absent = d if d is not None else "old(%s)" % f
         ens.append("//@   ensures [C04] (ok%d && err == nil) ==> %s == (k%d == 0 ? %s : %s)" % (n, f, n, val, absent))
+        ens.append("//@   ensures [C06] (%sk%d == 2) ==> err != nil" % (("ok%d && " % (n - 1)) if n > 1 else "", n))
     ens.append("//@   ensures [C04] ok%d ==> (err == nil && readBuf.buf.i == q%d)" % (prev_ok, prev_ok))
     return lets, ens
 
@@ -154,7 +155,21 @@ def schema_contract(pkg, ty, mem, fields):
         o.append("//@   ensures [C03] err == nil && buf.buf.bytes == pre")
     else:
         return []  # structs with container members: not derived (requestf's two packets are written by hand)
-    o += ["//@   safety [C03]", "//"]
+    o += ["//@   safety [C03]", "//",
+          "//@ func (*%s).WriteBlock" % ty,
+          "//@   requires " + " && ".join(reqs),
+          "//@   let e0 = buf.buf.bytes ++ head(StructBegin, tag)"]
+    for k, (cond, enc) in enumerate(steps):
+        if cond is None:
+            o.append("//@   let e%d = e%d ++ %s" % (k + 1, k, enc))
+        else:
+            o.append("//@   let e%d = (%s ? e%d ++ %s : e%d)" % (k + 1, cond, k, enc, k))
+    o += ["//@   let pre = e%d ++ head(StructEnd, 0)" % len(steps),
+          "//@   opaque head encInt8 encInt16 encInt32 encInt64 encString encBool",
+          "//@   perreturn",
+          "//@   modifies buf.buf.bytes",
+          "//@   ensures [C03] result == nil && buf.buf.bytes == pre",
+          "//@   safety [C03]", "//"]
     return o
 
 def gen(pkg):
@@ -191,7 +206,7 @@ def gen(pkg):
             lets, ens = [], []
             if ty in idl and scalar_struct(idl[ty]):
                 lets, ens = reader_schema(pkg, ty, idl[ty], go_fields(src, ty))
-                lets = ["//@   let src = readBuf.buf.src", "//@   let d0 = readBuf.depth"] + lets + ["//@   opaque [C04] *", "//@   perreturn"]
+                lets = ["//@   let src = readBuf.buf.src", "//@   let d0 = readBuf.depth"] + lets + ["//@   opaque [C04,C06] *", "//@   perreturn"]
             o += ["//@ func (*%s).ReadFrom" % ty,
                   "//@   requires st != nil && validR(readBuf)",
                   "//@   let p0 = readBuf.buf.i",
